@@ -48,8 +48,10 @@ IMPORTS = "From Coq Require Import NArith List.\nFrom DvcData Require Import Bas
 
 ADD, MODIFY, RENAME, DELETE, UNCHANGED, UNKNOWN = "add", "modify", "rename", "delete", "unchanged", "unknown"
 TYP_CODE = {ADD: 1, MODIFY: 2, RENAME: 3, DELETE: 4, UNCHANGED: 5, UNKNOWN: 6}
-META_FIELDS = ("isdir", "size", "nfiles", "isexec", "md5", "mtime")
-META_DEFAULT = {"isdir": False, "size": None, "nfiles": None, "isexec": False, "md5": None, "mtime": None}
+META_FIELDS = ("isdir", "size", "nfiles", "isexec", "md5", "mtime", "etag")
+META_DEFAULT = {"isdir": False, "size": None, "nfiles": None, "isexec": False, "md5": None, "mtime": None,
+                "etag": None}
+CMP_KINDS = [None, "ie", "etag", "md5"]      # the cmp selector of Model/IndexDiff.v: cmp_of_sel
 
 NAMES = ["a", "b", "ab", "c", "é", "B"]
 CONTENTS = ["h1", "h2", "h3", "h4", "h5", "h6"]
@@ -64,13 +66,25 @@ def opt_flags(code):
         "with_unchanged": bool(code & 2),
         "hash_only": bool(code & 4),
         "meta_only": bool(code & 8),
-        "cmp": bool(code & 16),
+        "cmp": "ie" if code & 16 else "etag" if code & 64 else "md5" if code & 128 else None,
         "shallow": bool(code & 32),
     }
 
 
 def _cmp_key(m):
     return (m.isdir, m.isexec) if m else None
+
+
+def _cmp_etag(m):
+    # the shape of dvc_data.index.push._meta_checksum: None for a Meta that carries no etag
+    return m.etag if m else None
+
+
+def _cmp_md5(m):
+    return m.md5 if m else None
+
+
+CMP_FN = {None: None, "ie": _cmp_key, "etag": _cmp_etag, "md5": _cmp_md5}
 
 
 # --------------------------------------------------------------------------------------
@@ -121,21 +135,78 @@ def obs_side(e):
     }
 
 
-def real_diff(old_entries, new_entries, code, roots=None):
-    """-> ("ok", [ (typ, old side, new side) ]) | ("err", code)"""
+# ---- on-disk (SQLite backed) indexes built through a history ----------------------------------------
+_DISK = {"dir": None, "n": 0}
+
+
+def apply_hist(ops):
+    """DataIndex.open(<fresh file>) taken through `ops`; the final key -> entry map is the case's entries"""
+    from dvc_data.index import DataIndex
+
+    _DISK["n"] += 1
+    path = os.path.join(_DISK["dir"], "i%d.db" % _DISK["n"])
+    idx = DataIndex.open(path)
+    for op in ops:
+        what = op[0]
+        if what == "set":
+            idx[tuple(op[1])] = mk_entry(op[1], op[2], op[3])
+        elif what == "del":
+            del idx[tuple(op[1])]
+        elif what == "pop":
+            idx.pop(tuple(op[1]))
+        elif what == "delete_node":
+            idx.delete_node(tuple(op[1]))
+        elif what == "read":
+            idx.get(tuple(op[1]))
+        elif what == "commit":
+            idx.commit()
+        elif what == "reopen":
+            idx.commit()
+            idx.close()
+            idx = DataIndex.open(path)
+    return idx, path
+
+
+def build_side(entries, hist):
+    if entries is None or hist is None:
+        return build_index(entries), None
+    return apply_hist(hist)
+
+
+def real_diff(old_entries, new_entries, code, roots=None, hist=None):
+    """-> ("ok", [ (typ, old side, new side) ]) | ("err", code); hist = {"old": ops|None, "new": ops|None}"""
     from dvc_data.index.diff import diff
 
     f = opt_flags(code)
-    old = build_index(old_entries)
-    new = build_index(new_entries)
+    hist = hist or {}
+    old = new = None
+    po = pn = None
     try:
+        old, po = build_side(old_entries, hist.get("old"))
+        new, pn = build_side(new_entries, hist.get("new"))
         out = list(diff(old, new, with_renames=f["with_renames"], with_unchanged=f["with_unchanged"],
                         hash_only=f["hash_only"], meta_only=f["meta_only"],
-                        meta_cmp_key=_cmp_key if f["cmp"] else None, shallow=f["shallow"],
+                        meta_cmp_key=CMP_FN[f["cmp"]], shallow=f["shallow"],
                         **({} if roots is None else {"roots": [tuple(r) for r in roots]})))
+        res = ("ok", [(c.typ, obs_side(c.old), obs_side(c.new)) for c in out])
     except Exception as exc:  # noqa: BLE001
-        return ("err", impl.err_code(exc), type(exc).__name__)
-    return ("ok", [(c.typ, obs_side(c.old), obs_side(c.new)) for c in out])
+        res = ("err", impl.err_code(exc), type(exc).__name__)
+    for ix, pth in ((old, po), (new, pn)):
+        if pth is not None:
+            try:
+                ix.close()
+            except Exception:  # noqa: BLE001, S110
+                pass
+            for suffix in ("", "-wal", "-shm", "-journal"):
+                try:
+                    os.remove(pth + suffix)
+                except OSError:
+                    pass
+    return res
+
+
+def swap_hist(hist):
+    return None if hist is None else {"old": hist.get("new"), "new": hist.get("old")}
 
 
 # flat encodings, mirrored by flat_side / flat_change in Model/IndexDiff.v
@@ -191,8 +262,9 @@ def c_meta(m):
     if m is None:
         return "None"
     d = {**META_DEFAULT, **m}
-    return "(Some (M %s %s %s %s %s %s))" % (cbool(d["isdir"]), copt(d["size"], cN), copt(d["nfiles"], cN),
-                                            cbool(d["isexec"]), c_optbytes(d["md5"]), copt(d["mtime"], cN))
+    return "(Some (M %s %s %s %s %s %s %s))" % (cbool(d["isdir"]), copt(d["size"], cN), copt(d["nfiles"], cN),
+                                               cbool(d["isexec"]), c_optbytes(d["md5"]), copt(d["mtime"], cN),
+                                               c_optbytes(d["etag"]))
 
 
 def c_hash(h):
@@ -246,14 +318,17 @@ def cmp_hash(a, b):
 
 
 def cmp_meta(a, b, use_cmp):
+    """presence first (on the metadata themselves, never on their projections), then the projections"""
     if a is None and b is None:
         return UNCHANGED
     if a is None:
         return ADD
     if b is None:
         return DELETE
-    if use_cmp:
+    if use_cmp == "ie":
         same = (a["isdir"], a["isexec"]) == (b["isdir"], b["isexec"])
+    elif use_cmp in ("etag", "md5"):
+        same = a[use_cmp] == b[use_cmp]
     else:
         same = all(a[f] == b[f] for f in META_FIELDS)
     return UNCHANGED if same else MODIFY
@@ -349,7 +424,7 @@ def below_hashed(k, o, n):
     return False
 
 
-def oracle(old_entries, new_entries, code, res):
+def oracle(old_entries, new_entries, code, res, hist=None):
     """problems = [(signature, what)] of the property on the real output"""
     f = opt_flags(code)
     both = old_entries is not None and new_entries is not None
@@ -377,7 +452,7 @@ def oracle(old_entries, new_entries, code, res):
 
     # the rename-free run of the same options (for with_renames: what _detect_renames consumed)
     if renames_on:
-        pres = real_diff(old_entries, new_entries, code & ~1)
+        pres = real_diff(old_entries, new_entries, code & ~1, hist=hist)
         if pres[0] != "ok":
             return [(f"C08:unexpected-exception:{pres[2]}", f"diff raised {pres[2]}")]
         plain = pres[1]
@@ -421,7 +496,7 @@ def oracle(old_entries, new_entries, code, res):
     # (checked by the dedicated refl cases: old == new)
 
     # swapping the arguments swaps added and deleted and nothing else
-    sres = real_diff(new_entries, old_entries, code)
+    sres = real_diff(new_entries, old_entries, code, hist=swap_hist(hist))
     if sres[0] != "ok":
         problems.append((f"C08:unexpected-exception:{sres[2]}", "swapped diff raised"))
     elif canon(swap_change(c) for c in sres[1]) != canon(changes):
@@ -429,7 +504,7 @@ def oracle(old_entries, new_entries, code, res):
 
     # skipping unchanged hashed sub-trees never hides a change
     if f["hash_only"] and not f["with_unchanged"] and not f["shallow"]:
-        full = real_diff(old_entries, new_entries, (code | 2) & ~1)
+        full = real_diff(old_entries, new_entries, (code | 2) & ~1, hist=hist)
         if full[0] == "ok":
             want = canon(c for c in full[1] if c[0] != UNCHANGED)
             if want != canon(plain):
@@ -476,7 +551,8 @@ def gen_file(rng):
     else:
         h = [rng.choice(["md5"] * 6 + ["sha256"]), hv]
     meta = rng.choice([None, None, {}, {"size": 1}, {"size": 1}, {"size": 2}, {"size": 1, "isexec": True},
-                       {"md5": "m"}, {"mtime": 5}, {"isexec": True}])
+                       {"md5": "m"}, {"mtime": 5}, {"isexec": True}, {"etag": "e1"}, {"etag": "e2", "size": 1},
+                       {"md5": "n", "size": 1}])
     return {"t": "f", "meta": meta, "hash": h}
 
 
@@ -508,7 +584,8 @@ def perturb(rng, tree, depth, p):
             if r < p * 0.45:
                 node["hash"] = ["md5", rng.choice(CONTENTS)]
             elif r < p * 0.6:
-                node["meta"] = rng.choice([None, {}, {"size": 7}, {"isexec": True}, {"size": 1}])
+                node["meta"] = rng.choice([None, {}, {"size": 7}, {"isexec": True}, {"size": 1}, {"etag": "e1"},
+                                           {"etag": "e3"}, {"md5": "m"}, {"size": 1, "md5": "m"}])
             elif r < p * 0.7:
                 node["hash"] = rng.choice([None, ["md5", ""], [None, None]])
             elif r < p * 0.85:
@@ -646,7 +723,10 @@ def sample_codes(ctx, k):
     codes.add(rng.choice([0, 2]))
     codes.add(rng.choice([4, 5, 4 | 16]))
     while len(codes) < k:
-        codes.add(rng.randrange(64))
+        c = rng.randrange(64)
+        if rng.random() < 0.35:
+            c = (c & ~16) | rng.choice([64, 128])   # a projection that is None for some existing Meta
+        codes.add(c)
     return sorted(codes)
 
 
@@ -655,13 +735,20 @@ def sample_codes(ctx, k):
 
 
 def decider_universe():
-    metas = [None, {}, {"size": 1}, {"isexec": True}, {"isdir": True}]
+    metas = [None, {}, {"size": 1}, {"isexec": True}, {"isdir": True}, {"etag": "e"}, {"etag": "f"}, {"md5": "m"}]
     hashes = [None, [None, None], ["md5", ""], ["md5", "h1"], ["md5", "h2"], ["sha256", "h1"]]
-    entries = [None] + [(m, h) for m in metas[:4] for h in hashes]
+    emetas = [None, {}, {"size": 1}, {"isexec": True}, {"etag": "e"}, {"md5": "m"}]
+    entries = [None] + [(m, h) for m in emetas for h in hashes]
     return metas, hashes, entries
 
 
+def full_meta(m):
+    return None if m is None else {**META_DEFAULT, **m}
+
+
 def run_deciders(ctx):
+    """the three deciders on the whole abstract product, against (a) the generated Coq deciders
+    (translation validation) and (b) the independent key-by-key classification (oracle)"""
     from dvc_data.index.diff import _diff_entry, _diff_hash_info, _diff_meta
 
     metas, hashes, entries = decider_universe()
@@ -675,35 +762,116 @@ def run_deciders(ctx):
 
     for a, b in itertools.product(entries, entries):
         got = []
-        for c in range(16):
-            t = _diff_entry(ent(a), ent(b), hash_only=bool(c & 1), meta_only=bool(c & 2),
-                            meta_cmp_key=_cmp_key if c & 4 else None, unknown=bool(c & 8))
-            got.append(TYP_CODE[t])
         case = {"decider": "_diff_entry", "old": a, "new": b}
+        for c in range(32):
+            kind = CMP_KINDS[(c >> 2) & 3]
+            t = _diff_entry(ent(a), ent(b), hash_only=bool(c & 1), meta_only=bool(c & 2),
+                            meta_cmp_key=CMP_FN[kind], unknown=bool(c & 16))
+            got.append(TYP_CODE[t])
+            if not c & 16 and not (a is None and b is None):
+                fa = None if a is None else (full_meta(a[0]), a[1])
+                fb = None if b is None else (full_meta(b[0]), b[1])
+                want = flat_classify(fa, fb, {"meta_only": bool(c & 2), "hash_only": bool(c & 1), "cmp": kind})
+                if want != t:
+                    ctx.oracle_fail("C08:decider-entry-mismatch",
+                                    f"_diff_entry(hash_only={bool(c & 1)}, meta_only={bool(c & 2)}, cmp={kind}) = {t}, "
+                                    f"the key-by-key classification says {want}", {**case, "flags": c})
         items_e.append((case, cpair(c_ent(a), c_ent(b)), vL([vN(x) for x in got])))
         ctx.case(case, nontrivial=len(set(got)) > 2)
-        # oracle on the table itself: reflexive, anti-symmetric
+        # oracle on the table itself: reflexive
         if a == b and any(g not in (TYP_CODE[UNCHANGED], TYP_CODE[UNKNOWN]) for g in got):
             ctx.oracle_fail("C08:decider-not-reflexive", f"_diff_entry(e, e) != unchanged for {a}", case)
     for a, b in itertools.product(metas, metas):
-        got = [TYP_CODE[_diff_meta(mk_meta(a), mk_meta(b))], TYP_CODE[_diff_meta(mk_meta(a), mk_meta(b), cmp_key=_cmp_key)]]
+        got = []
         case = {"decider": "_diff_meta", "old": a, "new": b}
+        for kind in CMP_KINDS:
+            t = _diff_meta(mk_meta(a), mk_meta(b), cmp_key=CMP_FN[kind])
+            got.append(TYP_CODE[t])
+            want = cmp_meta(full_meta(a), full_meta(b), kind)
+            if want != t:
+                ctx.oracle_fail("C08:decider-meta-mismatch",
+                                f"_diff_meta(cmp={kind}) = {t}, comparing presence then the projections says {want}",
+                                {**case, "cmp": kind})
         items_m.append((case, cpair(c_meta(a), c_meta(b)), vL([vN(x) for x in got])))
-        ctx.case(case, nontrivial=False)
+        ctx.case(case, nontrivial=len(set(got)) > 1)
     for a, b in itertools.product(hashes, hashes):
         got = TYP_CODE[_diff_hash_info(mk_hash(a), mk_hash(b))]
         case = {"decider": "_diff_hash_info", "old": a, "new": b}
+        if _diff_hash_info(mk_hash(a), mk_hash(b)) != cmp_hash(a, b):
+            ctx.oracle_fail("C08:decider-hash-mismatch", f"_diff_hash_info = {got}, expected {cmp_hash(a, b)}", case)
         items_h.append((case, cpair(c_hash(a), c_hash(b)), vN(got)))
         ctx.case(case, nontrivial=False)
-    ctx.count("decider:_diff_entry", len(items_e) * 16)
-    ctx.count("decider:_diff_meta", len(items_m) * 2)
+    ctx.count("decider:_diff_entry", len(items_e) * 32)
+    ctx.count("decider:_diff_meta", len(items_m) * 4)
     ctx.count("decider:_diff_hash_info", len(items_h))
+    ctx.obligation("oracle:deciders", not any(str(v.signature).startswith("C08:decider") for v in ctx.violations),
+                   "the three deciders equal the independent key-by-key classification on the abstract product")
     ctx.correspond("diff_entry", IMPORTS, "option ientry * option ientry",
                    "fun c => run_diff_entry (fst c) (snd c)", items_e)
     ctx.correspond("diff_meta", IMPORTS, "option meta * option meta",
                    "fun c => run_diff_meta (fst c) (snd c)", items_m)
     ctx.correspond("diff_hash_info", IMPORTS, "option hashinfo * option hashinfo",
                    "fun c => run_diff_hash_info (fst c) (snd c)", items_h)
+
+
+# --------------------------------------------------------------------------------------
+# on-disk indexes: sanitising (what JSON serialisation keeps) and build histories
+
+
+def disk_sanitize(entries):
+    """entries whose observable form survives DataIndexEntry.to_dict/from_dict (so a cached and a re-read entry
+    look the same): no mtime, no all-default Meta on an unhashed entry, no falsy HashInfo object"""
+    out = []
+    for k, m, h in entries:
+        if m is not None:
+            m = {f: v for f, v in m.items() if f != "mtime"}
+        if not truthy(h):
+            h = None
+        if m is not None and all(m.get(f, META_DEFAULT[f]) == META_DEFAULT[f] for f in META_FIELDS) and h is None:
+            m = {"size": 0}
+        out.append([k, m, h])
+    return out
+
+
+def gen_history(rng, entries):
+    """a build history whose FINAL key -> entry map is `entries`: sets in random order, overwritten values, ghost
+    entries that are set and removed again (del / pop / delete_node), explicit entries on implicit directories
+    that are removed again, reads, commits, close + reopen"""
+    final = {tuple(k): (m, h) for k, m, h in entries}
+    prefixes = sorted({k[:i] for k in final for i in range(len(k))} | {()})
+    ops1, ops2, ops3 = [], [], []
+    order = list(final)
+    rng.shuffle(order)
+    early = set(order[: rng.randrange(len(order) + 1)]) if order else set()
+    ghosts = []
+    for i in range(rng.choice([1, 1, 2, 3])):
+        kind = rng.choice(["leaf", "leaf", "implicit", "overwrite"])
+        if kind == "leaf":
+            par = rng.choice([p for p in prefixes if p not in final or (final[p][0] or {}).get("isdir")] or [()])
+            g = (*par, "g%d" % i)
+            ghosts.append((g, rng.choice(["del", "pop", "delete_node"])))
+            ops1.append(["set", list(g), {"size": 9}, ["md5", rng.choice(CONTENTS)]])
+        elif kind == "implicit":
+            cands = [p for p in prefixes if p and p not in final]
+            if cands:
+                g = rng.choice(cands)
+                if g not in [x for x, _ in ghosts]:
+                    ghosts.append((g, rng.choice(["del", "pop"])))
+                    ops1.append(["set", list(g), {"isdir": True}, None])
+        elif order:
+            k = rng.choice(order)
+            ops1.append(["set", list(k), {"size": 8}, ["md5", "old"]])
+            early.discard(k)
+    for k in order:
+        (ops1 if k in early else ops3).append(["set", list(k), final[k][0], final[k][1]])
+    rng.shuffle(ops1)
+    for g, how in ghosts:
+        if rng.random() < 0.4:
+            ops2.append(["read", list(g)])
+        ops2.append([how, list(g)])
+    mid = rng.choice([[], [], ["commit"], ["commit"], ["reopen"]])
+    tail = rng.choice([[], ["commit"], ["commit"], ["commit"], ["reopen"]])
+    return ops1 + ([mid] if mid else []) + ops2 + ops3 + ([tail] if tail else [])
 
 
 # --------------------------------------------------------------------------------------
@@ -807,12 +975,15 @@ def corpus_cases():
 def judge(ctx, case):
     """run one (old, new, codes) bundle on the implementation; oracle; returns the Coq item"""
     old, new, codes = case["old"], case["new"], case["codes"]
-    wf = case["stream"] == "wf"
+    hist = case.get("hist")
+    wf = case["stream"] in ("wf", "disk")
     expected = []
     for code in codes:
-        res = real_diff(old, new, code)
+        res = real_diff(old, new, code, hist=hist)
         expected.append(val_result(res))
         one = {"old": old, "new": new, "code": code, "stream": case["stream"]}
+        if hist:
+            one["hist"] = hist
         nontrivial = res[0] == "ok" and (
             (len(res[1]) >= 2 and len({c[0] for c in res[1]}) >= 2) or any(c[0] == RENAME for c in res[1]))
         ctx.case(one, nontrivial)
@@ -821,8 +992,8 @@ def judge(ctx, case):
             for t, cnt in collections.Counter(c[0] for c in res[1]).items():
                 ctx.count("changes:" + t, cnt)
         if wf:
-            for sig, what in oracle(old, new, code, res):
-                ctx.oracle_fail(sig, what, shrink(ctx, one, sig))
+            for sig, what in oracle(old, new, code, res, hist=hist):
+                ctx.oracle_fail(sig, what, one if hist else shrink(ctx, one, sig))
     inp = "(%s, %s, %s)" % (c_index(old), c_index(new), clist([cN(c) for c in codes]))
     return (case, inp, vL(expected))
 
@@ -840,14 +1011,26 @@ def shrink(ctx, one, sig):
     return {"old": old, "new": new, "code": code, "stream": one["stream"]}
 
 
+def _tick(label, _t=[None]):
+    import time
+    if os.environ.get("C08_TIMING"):
+        now = time.time()
+        with open("/tmp/c08w/timing", "a") as f:
+            f.write("%s %.1f\n" % (label, 0 if _t[0] is None else now - _t[0]))
+        _t[0] = now
+
+
 def run(ctx):
+    _DISK["dir"] = ctx.fresh("disk")
+    _tick("start")
     run_deciders(ctx)
+    _tick("deciders")
 
     bundles = []
     for c in corpus_cases():
         bundles.append(c)
         ctx.count("stream:corpus")
-    n_pairs = ctx.n(260, 3500)
+    n_pairs = ctx.n(200, 3500)
     n_codes = ctx.n(6, 12)
     n_bad = ctx.n(60, 700)
     wf_pairs = []
@@ -870,13 +1053,37 @@ def run(ctx):
         ctx.count("malformed:" + how)
         bundles.append({"old": old, "new": new, "codes": sample_codes(ctx, max(3, n_codes // 2)), "stream": "malformed"})
 
+    # SQLite-backed sides built through histories (the model index is the FINAL key -> entry map)
+    n_disk = ctx.n(30, 450)
+    for old, new in wf_pairs[:n_disk]:
+        if old is None and new is None:
+            continue
+        sides = ctx.rng.choice([("old",), ("new",), ("old", "new"), ("old", "new")])
+        o2 = disk_sanitize(old) if old is not None and "old" in sides else old
+        n2 = disk_sanitize(new) if new is not None and "new" in sides else new
+        hist = {"old": gen_history(ctx.rng, o2) if old is not None and "old" in sides else None,
+                "new": gen_history(ctx.rng, n2) if new is not None and "new" in sides else None}
+        if not (is_wf(o2) and is_wf(n2) and is_consistent(o2, n2) and is_consistent(n2, o2)):
+            ctx.count("generator:rejected-disk")
+            continue
+        codes = sorted({2 if ctx.rng.random() < 0.7 else 6, ctx.rng.choice([0, 1, 3, 4, 5]), ctx.rng.randrange(64)})
+        for side in ("old", "new"):
+            if hist[side]:
+                for op in hist[side]:
+                    ctx.count("disk-op:" + op[0])
+        ctx.count("stream:disk")
+        bundles.append({"old": o2, "new": n2, "codes": codes, "stream": "disk", "hist": hist})
+
+    _tick("generate")
     items = [judge(ctx, b) for b in bundles]
+    _tick("judge")
     ctx.obligation("oracle:diff", not any(v.kind == "oracle" for v in ctx.violations),
                    f"{sum(len(b['codes']) for b in bundles if b['stream'] == 'wf')} real diffs judged by the flat "
                    "dictionary oracle (+ swap, no-hiding, rename rules, key uniqueness)")
     ctx.correspond("diff", IMPORTS, "option index * option index * list N",
                    "fun c => run_diffs (fst (fst c)) (snd (fst c)) (snd c)", items, shard=60)
 
+    _tick("correspond-diff")
     # roots other than [()]
     ritems = []
     for old, new in wf_pairs[: ctx.n(60, 600)]:
@@ -894,6 +1101,7 @@ def run(ctx):
                    "fun c => run_diffs_roots (fst (fst (fst c))) (snd (fst (fst c))) (snd (fst c)) (snd c)", ritems,
                    shard=60)
 
+    _tick("roots")
     # info / ls / has_node
     titems = []
     for old, new in wf_pairs[: ctx.n(40, 300)]:
@@ -909,6 +1117,7 @@ def run(ctx):
                                            c_key(k)), exp))
     ctx.count("trie-probes", len(titems))
     ctx.correspond("trie", IMPORTS, "index * key", "fun c => run_trie (fst c) (snd c)", titems)
+    _tick("trie")
 
 
 def replay_case(ctx, case):
@@ -925,9 +1134,11 @@ def replay_case(ctx, case):
     codes = case.get("codes") or [case["code"]]
     out = []
     problems = []
+    if case.get("hist") and _DISK["dir"] is None:
+        _DISK["dir"] = ctx.fresh("disk")
     for code in codes:
-        res = real_diff(case["old"], case["new"], code)
+        res = real_diff(case["old"], case["new"], code, hist=case.get("hist"))
         out.append({"code": code, "options": opt_flags(code), "result": res})
-        if case.get("stream", "wf") == "wf":
-            problems += oracle(case["old"], case["new"], code, res)
+        if case.get("stream", "wf") in ("wf", "disk"):
+            problems += oracle(case["old"], case["new"], code, res, hist=case.get("hist"))
     return {"results": out, "problems": problems, "violates": bool(problems)}
